@@ -1,0 +1,78 @@
+//go:build verif
+
+package json
+
+import (
+	"fmt"
+	"reflect"
+	"runtime"
+	"strings"
+
+	"github.com/jsightapi/jsight-schema-go-library/bytes"
+	"github.com/jsightapi/jsight-schema-go-library/fs"
+)
+
+// VerifStepper feeds the JSON scanner one byte at a time and exposes a
+// canonical key of its control state. Verification hook; not part of the API.
+type VerifStepper struct {
+	s *scanner
+}
+
+func NewVerifStepper(allowTrailingNonSpaceCharacters bool) *VerifStepper {
+	s := newScanner(fs.NewFile("", []byte{}))
+	s.allowTrailingNonSpaceCharacters = allowTrailingNonSpaceCharacters
+	return &VerifStepper{s: s}
+}
+
+// Feed appends one byte to the input and runs the scanner over it exactly as
+// Next does, draining the found lexical events. It returns the error the
+// scanner raised for this byte, if any.
+func (v *VerifStepper) Feed(c byte) (err error) {
+	defer func() {
+		if r := recover(); r != nil {
+			if e, ok := r.(error); ok {
+				err = e
+				return
+			}
+			err = fmt.Errorf("%v", r)
+		}
+	}()
+	s := v.s
+	s.data = append(s.data, c)
+	s.dataSize = bytes.Index(len(s.data))
+	for s.index < s.dataSize {
+		b := s.data[s.index]
+		s.index++
+		s.step(s, b)
+		for len(s.finds) != 0 {
+			s.processingFoundLexeme(s.shiftFound())
+		}
+	}
+	return nil
+}
+
+func verifFuncName(f any) string {
+	n := runtime.FuncForPC(reflect.ValueOf(f).Pointer()).Name()
+	if i := strings.LastIndex(n, "."); i >= 0 {
+		n = n[i+1:]
+	}
+	return n
+}
+
+// Key is the scanner's control state without offsets.
+func (v *VerifStepper) Key() string {
+	s := v.s
+	var b strings.Builder
+	b.WriteString(verifFuncName(s.step))
+	b.WriteString("|")
+	for i := 0; i < s.stack.Len(); i++ {
+		fmt.Fprintf(&b, "%d,", s.stack.Get(i).Type())
+	}
+	b.WriteString("|")
+	for i := 0; i < s.returnToStep.Len(); i++ {
+		b.WriteString(verifFuncName(s.returnToStep.Get(i)))
+		b.WriteString(",")
+	}
+	fmt.Fprintf(&b, "|%v|%v|%v", s.finds, s.unfinishedLiteral, s.allowTrailingNonSpaceCharacters)
+	return b.String()
+}
